@@ -124,22 +124,28 @@ fn build(ch: &mut Chooser, ms: &[Vec<Piece>]) -> FCase {
     let omit_member = ch.flag("one-member-without-formula");
     let mut cells: Vec<xlsx::XCell> = vec![];
     let mut expect = vec![];
-    let mut add_group = |cells: &mut Vec<xlsx::XCell>, expect: &mut Vec<((u32, u32), String)>, si: u32, anchor: (u32, u32), h: u32, w: u32, m: &[Piece], omit: bool| {
+    // the master is the first member in document order; with `skip` > 0 the first cells of the declared
+    // rectangle are plain values (an L-shaped group whose ref is its bounding box), so the master is not the top-left cell
+    let can_skip = h * w >= 3 && m.iter().all(|p| !matches!(p, Piece::Ref { col, ca: false, .. } if *col == 0));
+    let skip: u32 = if can_skip { ch.choose("master-not-top-left", 3) as u32 } else { 0 };
+    let mut add_group = |cells: &mut Vec<xlsx::XCell>, expect: &mut Vec<((u32, u32), String)>, si: u32, anchor: (u32, u32), h: u32, w: u32, m: &[Piece], omit: bool, skip: u32| {
         let rf = if h == 1 && w == 1 { a1(anchor.0, anchor.1) } else { format!("{}:{}", a1(anchor.0, anchor.1), a1(anchor.0 + h - 1, anchor.1 + w - 1)) };
+        let master = (skip / w, skip % w);
         for dr in 0..h { for dc in 0..w {
             let (r, c) = (anchor.0 + dr, anchor.1 + dc);
             let mut cell = xlsx::XCell::new(r, c, xlsx::XVal::Num("1".into()));
-            if (dr, dc) == (0, 0) { cell.formula = Some(xlsx::XFormula::SharedMaster { si, rf: rf.clone(), text: render(m, (0, 0)) }); expect.push(((r, c), render(m, (0, 0)))); }
+            if dr * w + dc < skip { /* plain value before the master */ }
+            else if (dr, dc) == master { cell.formula = Some(xlsx::XFormula::SharedMaster { si, rf: rf.clone(), text: render(m, (0, 0)) }); expect.push(((r, c), render(m, (0, 0)))); }
             else if omit && (dr, dc) == (h - 1, w - 1) { /* plain value cell inside the range: a member only if it says so */ }
-            else { cell.formula = Some(xlsx::XFormula::SharedChild { si }); expect.push(((r, c), render(m, (dr as i64, dc as i64)))); }
+            else { cell.formula = Some(xlsx::XFormula::SharedChild { si }); expect.push(((r, c), render(m, (dr as i64 - master.0 as i64, dc as i64 - master.1 as i64)))); }
             cells.push(cell);
         } }
     };
     let (si_a, si_b) = if si_swapped { (1, 0) } else { (0, 1) };
-    add_group(&mut cells, &mut expect, si_a, anchor, h, w, m, omit_member);
+    add_group(&mut cells, &mut expect, si_a, anchor, h, w, m, omit_member, skip);
     if two_groups {
         let m2 = &ms[(ms.len() / 2 + 7) % ms.len()];
-        add_group(&mut cells, &mut expect, si_b, (anchor.0 + 6, anchor.1 + 1), 2, 2, m2, false);
+        add_group(&mut cells, &mut expect, si_b, (anchor.0 + 6, anchor.1 + 1), 2, 2, m2, false, 0);
     }
     // cells outside any group: a plain formula, a value
     let mut plain = xlsx::XCell::new(anchor.0 + 10, anchor.1, xlsx::XVal::Num("2".into()));
@@ -150,7 +156,7 @@ fn build(ch: &mut Chooser, ms: &[Vec<Piece>]) -> FCase {
     let enc = xlsx::XEnc { prefix: ch.flag("xlsx.prefix"), cell_r: if ch.flag("xlsx.cell-r-implicit") { xlsx::RMode::Implicit } else { xlsx::RMode::Explicit }, ..Default::default() };
     let bytes = xlsx::write(&xlsx::XBook { sheets: vec![xlsx::XSheet::new("S", cells)], ..Default::default() }, &enc);
     expect.sort();
-    let desc = json!({"shape": [h, w], "master_cell": a1(anchor.0, anchor.1), "master": render(m, (0, 0)), "second_group": two_groups, "si_swapped": si_swapped, "member_without_formula": omit_member});
+    let desc = json!({"shape": [h, w], "master_cell": a1(anchor.0, anchor.1), "master": render(m, (0, 0)), "master_skips": skip, "second_group": two_groups, "si_swapped": si_swapped, "member_without_formula": omit_member});
     FCase { bytes, expect, desc }
 }
 
@@ -183,7 +189,7 @@ fn run_case(rep: &Report, ch: &mut Chooser, ms: &[Vec<Piece>], local: &mut Vec<(
 
 pub fn check(rep: &Report) {
     let t = crate::thorough(&rep.tier);
-    rep.rule("(a) master formulas = 30 templates (plain refs, areas, functions whose names end in digits, sheet-qualified and quoted-sheet refs incl. a sheet named Q1 and non-ASCII / apostrophe names, strings containing cell-like text and doubled quotes, numbers with exponents, defined names with digits, percent, booleans) x 16 references (4 absolute/relative combinations x A1, Z10, AA5, ZZ100) in every slot, translated by every offset of a window (quick 7 offsets, thorough 52) by the real translator vs the reference shift; (b) groups of shape {3x1,1x3,2x2,2x3,1x1,4x1,3x2} x master at {A1, D6, Y1} x every master formula x second group x swapped si order x a non-member cell inside the range x prefix x implicit cell refs, all choice vectors with <= 2 (thorough 3) deviations, through worksheet_formula; non-trivial = non-zero offset / non-default choice");
+    rep.rule("(a) master formulas = 30 templates (plain refs, areas, functions whose names end in digits, sheet-qualified and quoted-sheet refs incl. a sheet named Q1 and non-ASCII / apostrophe names, strings containing cell-like text and doubled quotes, numbers with exponents, defined names with digits, percent, booleans) x 16 references (4 absolute/relative combinations x A1, Z10, AA5, ZZ100) in every slot, translated by every offset of a window (quick 7 offsets, thorough 52) by the real translator vs the reference shift; (b) groups of shape {3x1,1x3,2x2,2x3,1x1,4x1,3x2} x master at {A1, D6, Y1} x every master formula x master not the top-left cell of the declared range (first 1-2 cells plain) x second group x swapped si order x a non-member cell inside the range x prefix x implicit cell refs, all choice vectors with <= 2 (thorough 3) deviations, through worksheet_formula; non-trivial = non-zero offset / non-default choice");
     rep.assume("offsets never move a reference outside the sheet; names that look exactly like a cell reference are not used as defined names");
     hook_sweep(rep, t);
     let ms = masters();
